@@ -849,6 +849,30 @@ func runC18(c *Ctx) {
 					lo, _ = pt.value(d).(*ssa.Slice)
 					hi, _ = pt.value(sarg).(*ssa.Slice)
 				}
+				if dc, ok := rv.(*ssa.Call); ok && !isApp {
+					// slices.Delete(s, a, b) removes s[a:b]
+					if sc := dc.Call.StaticCallee(); sc != nil && strings.HasPrefix(callName(dc), "slices.Delete") && len(dc.Call.Args) == 3 && pt.value(dc.Call.Args[0]) == ssa.Value(sP) {
+						a := pathLin(pt, dc.Call.Args[1], sym)
+						b := pathLin(pt, dc.Call.Args[2], sym)
+						within, beyond := false, false
+						for _, ft := range pt.Conds {
+							if at, pol, ok := atomOfP(ft.Cond, ft.Val, sym, pt.phi); ok && pol && !at.Eq {
+								if at.Form.eq(linSym("len").add(linSym("offset"), -1).add(linSym("n"), -1).add(linConst(1), 1)) {
+									within = true
+								}
+								if at.Form.eq(linSym("offset").add(linSym("n"), 1).add(linSym("len"), -1)) {
+									beyond = true
+								}
+							}
+						}
+						okB := (within && b.eq(linSym("offset").add(linSym("n"), 1))) || (beyond && b.eq(linSym("len")))
+						o8.Site(ret.Pos(), "%s returns slices.Delete(s, %s, %s)", h.Name(), a, b)
+						if !a.eq(linSym("offset")) || !okB {
+							o8.Fail(ret.Pos(), "%s deletes s[%s:%s]: not the messages [offset, min(offset+n, len))", fname(h), a, b)
+						}
+						continue
+					}
+				}
 				if lo == nil || hi == nil || lo.X != ssa.Value(sP) || hi.X != ssa.Value(sP) || lo.Low != nil || lo.High == nil || hi.Low == nil || hi.High != nil {
 					o8.Undecide("%s does not return append(s[:a], s[b:]...) on a path (other idiom: not recognised)", fname(h))
 					continue
@@ -881,54 +905,100 @@ func runC18(c *Ctx) {
 
 	// R7 Tick: hand over the head only to a waiting reader; dequeue iff handed over
 	o = c.Obl("R7", fname(tick), "Tick offers the head of each queue to the peer's unbuffered read channel without blocking and removes it from the queue exactly on the success edge", 2)
+	tpaths, okTP := enumIterPathsU(tick, 100000)
+	if !okTP {
+		o.Undecide("the paths of Tick could not be enumerated")
+	}
 	for _, dir := range []struct{ q, conn string }{{"queue0to1", "conn1"}, {"queue1to0", "conn0"}} {
-		var sel *ssa.Select
-		for _, cm := range commsOfU(tick) {
-			if cm.Dir == types.SendOnly && cm.Sel != nil {
-				if ia, ok := origin(cm.Send).(*ssa.UnOp); ok {
-					if idx, ok := origin(ia.X).(*ssa.IndexAddr); ok && isFieldLoad(idx.X, "test.Bridge", dir.q) {
-						sel = cm.Sel
-						if k, ok := constInt(idx.Index); !ok || k != 0 {
-							o.Fail(cm.Sel.Pos(), "Tick does not offer the head (index 0) of %s", dir.q)
+		// path by path (an offer helper shared by both directions is followed with each call's own arguments): the
+		// head of the queue is offered to the peer's read channel without blocking, and the queue loses its head
+		// exactly on the paths on which the offer was taken
+		nDeliver := 0
+		failed := map[string]bool{}
+		failOnce := func(pos token.Pos, f string, a ...interface{}) {
+			m := fmt.Sprintf(f, a...)
+			if !failed[m] {
+				failed[m] = true
+				o.Fail(pos, "%s", m)
+			}
+		}
+		var siteSel *ssa.Select
+		for pi := range tpaths {
+			pt := &tpaths[pi]
+			if rt, isRet := pt.last().(*ssa.Return); !isRet || pt.Loop || rt.Parent() != tick {
+				continue
+			}
+			delivered, removed := -1, -1
+			for idx, in := range pt.Instrs {
+				switch x := in.(type) {
+				case *ssa.Select:
+					for k, st := range x.States {
+						if st.Dir != types.SendOnly {
+							continue
 						}
-						fr, ok := asFieldLoad(cm.Chan)
-						if !ok || fr.Field != "readCh" || !isFieldLoad(fr.Base, "test.Bridge", dir.conn) {
-							o.Fail(cm.Sel.Pos(), "the head of %s is not offered to %s", dir.q, dir.conn)
+						ld, ok := pt.valueAt(st.Send, idx).(*ssa.UnOp)
+						if !ok {
+							continue
+						}
+						ia, ok := ld.X.(*ssa.IndexAddr)
+						if !ok || !isFieldLoad(pt.valueAt(ia.X, idx), "test.Bridge", dir.q) {
+							continue
+						}
+						siteSel = x
+						if kk, isC := constInt(ia.Index); !isC || kk != 0 {
+							failOnce(x.Pos(), "Tick does not offer the head (index 0) of %s", dir.q)
+						}
+						chOK := false
+						if cl, ok := pt.valueAt(st.Chan, idx).(*ssa.UnOp); ok {
+							if fa, ok := cl.X.(*ssa.FieldAddr); ok {
+								if stt := structOf(fa.X.Type()); stt != nil && stt.Field(fa.Field).Name() == "readCh" && isFieldLoad(pt.valueAt(fa.X, idx), "test.Bridge", dir.conn) {
+									chOK = true
+								}
+							}
+						}
+						if !chOK {
+							failOnce(x.Pos(), "the head of %s is not offered to %s", dir.q, dir.conn)
+						}
+						if x.Blocking {
+							failOnce(x.Pos(), "the delivery blocks")
+						}
+						if selCaseOnPathAt(pt, x, idx) == k {
+							delivered = idx
 						}
 					}
+				case *ssa.Store:
+					if !isFieldStore(x, "test.Bridge", dir.q) {
+						continue
+					}
+					sl, ok := pt.valueAt(x.Val, idx).(*ssa.Slice)
+					okS := ok && isFieldLoad(pt.valueAt(sl.X, idx), "test.Bridge", dir.q) && sl.High == nil
+					if okS {
+						k, isC := constInt(sl.Low)
+						okS = isC && k == 1
+					}
+					if !okS {
+						failOnce(in.Pos(), "%s is modified in Tick other than by removing its head", dir.q)
+						continue
+					}
+					if delivered < 0 || removed >= 0 {
+						failOnce(in.Pos(), "the head of %s is removed on a path where it was not handed to a reader (message lost)", dir.q)
+					}
+					removed = idx
+				}
+			}
+			if delivered >= 0 {
+				nDeliver++
+				if removed < 0 && siteSel != nil {
+					failOnce(siteSel.Pos(), "a message handed to a reader stays in %s (delivered twice)", dir.q)
 				}
 			}
 		}
-		if sel == nil {
+		if nDeliver == 0 {
 			o.Fail(tick.Pos(), "Tick never delivers from %s", dir.q)
 			continue
 		}
-		o.Site(sel.Pos(), "delivery from %s", dir.q)
-		if sel.Blocking {
-			o.Fail(sel.Pos(), "the delivery blocks")
-		}
-		cs, _ := caseBlocks(sel)
-		okBlk := cs[0]
-		for _, in := range findU(tick, func(in ssa.Instruction) bool { return isFieldStore(in, "test.Bridge", dir.q) }) {
-			st := in.(*ssa.Store)
-			sl, ok := origin(st.Val).(*ssa.Slice)
-			okS := ok && isFieldLoad(sl.X, "test.Bridge", dir.q) && sl.High == nil
-			if okS {
-				k, isC := constInt(sl.Low)
-				okS = isC && k == 1
-			}
-			if !okS {
-				o.Fail(in.Pos(), "%s is modified in Tick other than by removing its head", dir.q)
-			}
-			if okBlk == nil || !(okBlk == in.Block() || okBlk.Dominates(in.Block())) {
-				o.Fail(in.Pos(), "the head of %s is removed on a path where it was not handed to a reader (message lost)", dir.q)
-			}
-		}
-		if okBlk != nil {
-			if ok, bad := mustPassU(blockStart(okBlk), isReturn, func(in ssa.Instruction) bool { return isFieldStore(in, "test.Bridge", dir.q) }); !ok {
-				_ = bad
-				o.Fail(sel.Pos(), "a message handed to a reader stays in %s (delivered twice)", dir.q)
-			}
+		if siteSel != nil {
+			o.Site(siteSel.Pos(), "delivery from %s", dir.q)
 		}
 	}
 	for _, mk := range chanMakesForField(p, "test.bridgeConn", "readCh") {
